@@ -1,4 +1,6 @@
 import BeyondVerif.Model.Node
+import BeyondVerif.Model.Registry
+import BeyondVerif.Generated.RegSites
 import BeyondVerif.Drv.Util
 namespace BeyondVerif.Drv.C20
 open BeyondVerif BeyondVerif.Drv
@@ -35,8 +37,120 @@ def nodeOp (args : List String) : String :=
     | _, _ => "bad-op"
   | _ => "bad-op"
 
+/-! ### named routing and the method table (`Model/Registry.lean`) -/
+
+def natList? (s : String) : Option (List Nat) :=
+  if s = "-" then some [] else (s.splitOn ",").mapM (·.toNat?)
+
+def distinctSorted (xs : List Nat) : List Nat :=
+  (xs.toArray.qsort (· < ·)).toList.eraseDups
+
+def dumpGraph (n : Nat) (g : Node.Graph) : String :=
+  let nodes := List.range n
+  let tabs := nodes.map (fun u =>
+    let rs := (Node.get g u).routes
+    let rs := rs.toArray.qsort (fun a b => a.target < b.target) |>.toList
+    s!"{u}:" ++ joinWith "," (rs.map (fun r => s!"{r.target}>{r.dir}/{r.steps}")))
+  let nb := nodes.map (fun u => s!"{u}:" ++ joinWith "," ((Node.get g u).nbrs.map toString))
+  "N " ++ joinWith ";" nb ++ " R " ++ joinWith ";" tabs
+
+def showPath : Node.PathRes → String
+  | .ok p => joinWith "." (p.map toString)
+  | .unknown => "U"
+  | .keyError => "K"
+  | .loop => "L"
+
+/-- `nnode <n> <name,name,…> <a-b> …` : nodes 0..n-1 with the given names (shared names allowed), links in order;
+dump neighbours, tables (keyed by NAME) and `path(s, goal name)` for every node and every distinct name -/
+def nnodeOp (args : List String) : String :=
+  match args with
+  | n :: names :: es =>
+    match n.toNat?, natList? names, es.mapM parseEdge? with
+    | some n, some names, some es =>
+      if names.length ≠ n then "bad-op" else
+      let nm := fun i => names.getD i i
+      let fuel := n + 2
+      match Reg.build nm fuel es with
+      | none => "fuel"
+      | some g =>
+        let goals := distinctSorted names
+        let paths := (List.range n).flatMap (fun s => goals.map (fun t => showPath (Reg.path nm (n + 2) g s t)))
+        dumpGraph n g ++ " P " ++ joinWith ";" paths
+    | _, _, _ => "bad-op"
+  | _ => "bad-op"
+
+def parseMro? (s : String) : Option (List (Nat × List Nat)) :=
+  (s.splitOn ";").mapM (fun part =>
+    match part.splitOn ":" with
+    | [c, l] => do
+      let c ← c.toNat?
+      let l ← (l.splitOn ".").mapM (·.toNat?)
+      pure (c, l)
+    | _ => none)
+
+def parseHolder? (s : String) : Option Reg.Holder :=
+  if s.startsWith "c" then (s.drop 1).toNat?.map Reg.Holder.cls
+  else if s.startsWith "i" then (s.drop 1).toNat?.map Reg.Holder.inst
+  else none
+
+/-- one token: `L:a:b` | `A:<c|i><k>:ka:kb:<owner|->` | `S:<site index>:self:parent:other` → primitive operations -/
+def parseRegOp? (w : Reg.World) (root : Nat) (s : String) : Option (List Reg.Op) :=
+  match s.splitOn ":" with
+  | ["L", a, b] => do
+    let a ← a.toNat?; let b ← b.toNat?
+    pure [.link a b]
+  | ["A", h, ka, kb, o] => do
+    let h ← parseHolder? h
+    let ka ← ka.toNat?; let kb ← kb.toNat?
+    let o ← if o = "-" then some none else o.toNat?.map some
+    pure [.setattr h ka kb o]
+  | ["S", i, a, b, c] => do
+    let i ← i.toNat?; let a ← a.toNat?; let b ← b.toNat?; let c ← c.toNat?
+    let site ← BeyondVerif.Generated.regSites[i]?
+    pure (Reg.instSite w root ⟨a, b, c⟩ site.2)
+  | _ => none
+
+def showConv : Reg.ConvRes → String
+  | .ok steps => "ok=" ++ joinWith "," (steps.map (fun s =>
+      s!"{s.a}>{s.b}:" ++ (if s.direct then "d" else "r") ++ ":" ++ (match s.owner with | some o => toString o | none => "-")))
+  | .unknownNode => "UN"
+  | .unknownTransformation a b => s!"UT:{a}:{b}"
+  | .keyError => "K"
+  | .loop => "L"
+
+/-- `reg <n> <names> <classes> <mro> <root> <op> …` : objects 0..n-1 with names and classes, MRO of each class, base
+class; run the operations; dump the graph and `convert_to(start, goal name)` for every object and distinct name -/
+def regOp (args : List String) : String :=
+  match args with
+  | n :: names :: classes :: mro :: root :: ops =>
+    match n.toNat?, natList? names, natList? classes, parseMro? mro, root.toNat? with
+    | some n, some names, some classes, some mro, some root =>
+      if names.length ≠ n ∨ classes.length ≠ n then "bad-op" else
+      let w : Reg.World := {
+        nm := fun i => names.getD i i
+        cls := fun i => classes.getD i 0
+        mro := fun c => match mro.lookup c with | some l => l | none => [c] }
+      match ops.mapM (parseRegOp? w root) with
+      | none => "bad-op"
+      | some opss =>
+        let fuel := n + 2
+        match Reg.applyOps w fuel {} opss.flatten with
+        | none => "fuel"
+        | some st =>
+          let goals := distinctSorted names
+          let conv := (List.range n).flatMap (fun s => goals.map (fun t => showConv (Reg.convert w (n + 2) st s t)))
+          dumpGraph n st.g ++ " C " ++ joinWith ";" conv
+    | _, _, _, _, _ => "bad-op"
+  | _ => "bad-op"
+
+/-- `sites` : labels of the regenerated registration sites, in the order of their indices -/
+def sitesOp : String := joinWith ";" (BeyondVerif.Generated.regSites.map (·.1))
+
 def handle : List String → Option String
   | "node" :: args => some (nodeOp args)
+  | "nnode" :: args => some (nnodeOp args)
+  | "reg" :: args => some (regOp args)
+  | "sites" :: _ => some sitesOp
   | _ => none
 
 end BeyondVerif.Drv.C20
